@@ -45,6 +45,26 @@ def itemOfJson (j : Json) : Except String (Str × Int) :=
   | .arr #[r, e] => do pure (← symOfJson r, ← intOfJson e)
   | _ => .error "item = [text, exp]"
 
+def entriesJ (es : List Entry) : Json :=
+  Json.arr (es.map (fun e => Json.arr #[strJ e.cat, strJ e.unit, toJson e.exp])).toArray
+
+def stringsJ (reg : Reg) (r : Except ErrKind Quantity) : Json :=
+  match r with
+  | .error e => errJ e
+  | .ok q =>
+    let un := match q.unitName reg with
+      | .ok s => Json.mkObj [("ok", strJ s)]
+      | .error e => errJ e
+    Json.mkObj [("ok", Json.mkObj [
+      ("unit", strJ q.unit), ("category", strJ q.category), ("qtype", strJ q.qtype),
+      ("derived", .bool q.derived), ("unit_name", un),
+      ("entries", entriesJ q.entries),
+      ("joined", pairsJ (joinedUnits q.entries)),
+      ("scalar_repr_tail", strJ (scalarReprTail q)), ("suffix", strJ (formattedSuffix q)),
+      ("array_repr_head", strJ (arrayReprHead q)), ("array_repr_tail", strJ (arrayReprTail q)),
+      ("parsed", optPairsJ (parseUnit q.unit)),
+      ("all_atomic", .bool (q.entries.all (fun e => atomic e.unit)))])]
+
 def handle (j : Json) : Except String Json := do
   let op ← getStr j "op"
   match op with
@@ -53,20 +73,14 @@ def handle (j : Json) : Except String Json := do
     let cats ← (← getArr j "cats").toList.mapM catOfJson
     let names ← (← getArr j "names").toList.mapM nameOfJson
     let reg : Reg := ⟨cats, names⟩
-    match obtainFromDict reg entries with
-    | .error e => pure (errJ e)
-    | .ok q =>
-      let un := match q.unitName reg with
-        | .ok s => Json.mkObj [("ok", strJ s)]
-        | .error e => errJ e
-      pure (Json.mkObj [("ok", Json.mkObj [
-        ("unit", strJ q.unit), ("category", strJ q.category), ("qtype", strJ q.qtype),
-        ("derived", .bool q.derived), ("unit_name", un),
-        ("joined", pairsJ (joinedUnits q.entries)),
-        ("scalar_repr_tail", strJ (scalarReprTail q)), ("suffix", strJ (formattedSuffix q)),
-        ("array_repr_head", strJ (arrayReprHead q)), ("array_repr_tail", strJ (arrayReprTail q)),
-        ("parsed", optPairsJ (parseUnit q.unit)),
-        ("all_atomic", .bool (q.entries.all (fun e => atomic e.unit)))])])
+    pure (stringsJ reg (obtainFromDict reg entries))
+  | "obtain_list" =>
+    let pairs ← (← getArr j "pairs").toList.mapM itemOfJson
+    let lcats ← (← getArr j "lcats").toList.mapM symOfJson
+    let cats ← (← getArr j "cats").toList.mapM catOfJson
+    let names ← (← getArr j "names").toList.mapM nameOfJson
+    let reg : Reg := ⟨cats, names⟩
+    pure (stringsJ reg (obtainFromList reg pairs lcats))
   | "makestr" =>
     let items ← (← getArr j "items").toList.mapM itemOfJson
     pure (Json.mkObj [("ok", strJ (makeStr items))])
